@@ -73,6 +73,11 @@ fn matches_pc(st: &Status, pc: &str) -> bool {
 }
 
 struct Ctl {
+    /// the schedule comes from a PASSIVE_SPIN = 1 graph: a thread the spec moved from `spin` to `swp`
+    /// runs through the code's remaining spin loads (nobody else runs in between, so they all see
+    /// the same held lock) before the states are compared
+    spin_macro: bool,
+    extra_steps: u64,
     n: usize,
     key_addr: usize,
     excl_broken: Arc<AtomicBool>,
@@ -116,6 +121,20 @@ impl Control for Ctl {
         }
     }
     fn compare(&mut self, s: &Value, sched: &Sched) -> Option<String> {
+        if self.spin_macro && s.s("a") == "spin" {
+            let t = self.thread_of(s);
+            if s.a("pc")[t].as_str() == Some("swp") {
+                for _ in 0..8 {
+                    match sched.status(t) {
+                        Status::Parked { site: st, .. } if st == site::MUTEX_SPIN_LOAD && self.key() != 0 => {
+                            let _ = sched.step(t, false);
+                            self.extra_steps += 1;
+                        }
+                        _ => break,
+                    }
+                }
+            }
+        }
         let sts = sched.statuses();
         if self.key() as u64 != s.u("key") {
             return Some(format!("key is {} but spec has {}", self.key(), s.u("key")));
@@ -186,14 +205,20 @@ pub fn run(args: &vrt::Args) {
 
 fn replay(b: &Value, rng: &mut vrt::Rng, selftest: &str) -> Outcome {
     let n = b.u("threads") as usize;
-    let rounds = b.u("rounds") as usize;
+    // rounds: one number for all threads, or one per thread
+    let rounds_of: Vec<usize> = match b.g("rounds") {
+        Value::Array(a) => a.iter().map(|x| x.as_u64().unwrap_or(1) as usize).collect(),
+        v => vec![v.as_u64().unwrap_or(1) as usize; n],
+    };
+    let spin_macro = b.get("spin_macro").and_then(Value::as_bool).unwrap_or(false);
     let sched = Sched::new();
     sched.set_visible(VISIBLE);
     let m = Arc::new(VMutex::new(0u64));
     let inside = Arc::new(AtomicUsize::new(0));
     let excl_broken = Arc::new(AtomicBool::new(false));
     let no_lock = selftest == "nolock";
-    for _ in 0..n {
+    for i in 0..n {
+        let rounds = rounds_of.get(i).copied().unwrap_or(1);
         let (m, inside, excl_broken) = (Arc::clone(&m), Arc::clone(&inside), Arc::clone(&excl_broken));
         sched.spawn(move || {
             for _ in 0..rounds {
@@ -210,6 +235,8 @@ fn replay(b: &Value, rng: &mut vrt::Rng, selftest: &str) -> Outcome {
         });
     }
     let mut ctl = Ctl {
+        spin_macro,
+        extra_steps: 0,
         n,
         key_addr: m.key_addr(),
         excl_broken,
